@@ -890,8 +890,18 @@ func vCheckCaseC55(t *rapid.T, st *verifkit.Stats, tr vTree, c *vCaseC55) {
 			}
 			rel = append(rel, r)
 		}
+		// with other (relative) target paths there is no parent snapshot for pass 0, and the parent
+		// of pass 1 does not hold the unreadable items: every file is (re)read, so the expectation
+		// is the model WITHOUT a parent (a first version reused the first run's expectation and
+		// raised a false alarm when a fault had not been reached because the file was unchanged)
+		cc := *c
+		cc.Parent, cc.Modified = false, nil
+		x2 := vModelC55(tr, &cc)
+		if x2.eitherOK {
+			return
+		}
 		want := 0
-		if x.status3 {
+		if x2.status3 {
 			want = 3
 		}
 		for pass, bo := range []BackupOptions{
